@@ -35,7 +35,7 @@ def gen_cases(ctx):
                 for mode in MODES:
                     cases.append({"par": par, "seed": rng.randrange(10 ** 9), "mode": mode,
                                   "moves": 2, "deficient": False})
-    for _ in range(ctx.n(70, 1500)):
+    for _ in range(ctx.n(400, 3000)):
         kind = rng.choice([None, None, "spider", "chain", "star"])
         n = rng.choice([3, 4, 5, 6, 7]) if kind else rng.choice([1, 2, 3, 4, 5, 6])
         cases.append({"par": gen.random_parent_array(rng, n, kind), "seed": rng.randrange(10 ** 9),
